@@ -32,7 +32,7 @@ def build_layout(case):
     for gap, tok in zip(case["gaps"], case["toks"]):
         for ch in gap:
             n += 1
-            out.append("\n" if ch == "n" else (" " if n % 3 else "\t"))
+            out.append("\n" if ch == "n" else "\ufeff" if ch == "b" else (" " if n % 3 else "\t"))
         out.append(tok)
     return "".join(out)
 
@@ -106,8 +106,9 @@ def work(cases):
                          "incx": st[2].GetExpression().GetExpression(), "decx": st[3].GetExpression().GetExpression(),
                          "aredecl": st[4].GetDeclarations()[0],
                          "buse": st[4].GetDeclarations()[0].GetInitializerExpression(),
-                         "casgx": st[5].GetExpression().GetLeft(), "casga": st[5].GetExpression().GetRight().GetLeft(), "casgg": st[5].GetExpression().GetRight().GetRight(),
-                         "xuse": st[6].GetExpression(),
+                         "hfdecl": st[5].GetDeclarations()[0], "hflit": st[5].GetDeclarations()[0].GetInitializerExpression(),
+                         "casgx": st[6].GetExpression().GetLeft(), "casga": st[6].GetExpression().GetRight().GetLeft(), "casgg": st[6].GetExpression().GetRight().GetRight(),
+                         "xuse": st[7].GetExpression(),
                          "hdecl": mod.GetDeclarations()[1].GetDeclarations()[0]}
                 bad = None
                 for name, node in nodes.items():
@@ -116,7 +117,7 @@ def work(cases):
                         bad = (f"identifier-range:{name}", f"identifier `{name}` is reported at {got}, its characters are at {fmt(case['located'][name])}")
                         break
                 if bad is None:
-                    casgprod = st[5].GetExpression().GetRight()
+                    casgprod = st[6].GetExpression().GetRight()
                     # the compiler's own AST passes, in its order, up to and including the one that computes the composite ranges
                     import io
                     from nsl import Compiler
@@ -130,7 +131,7 @@ def work(cases):
                     if ran[-1] != UpdateLocations.GetPass().Name:
                         raise RuntimeError("the compiler's pass list has no location pass: " + str(ran))
                     comp = {"sum": st[0].GetDeclarations()[0].GetInitializerExpression(), "xdeclstmt": st[0], "whilecond": st[1].GetCondition(), "whilestmt": st[1],
-                            "aredeclstmt": st[4], "casgprod": casgprod, "casgstmt": st[5], "retstmt": st[6], "function": f, "module": mod}
+                            "aredeclstmt": st[4], "hfdeclstmt": st[5], "casgprod": casgprod, "casgstmt": st[6], "retstmt": st[7], "function": f, "module": mod}
                     for name, node in comp.items():
                         got = str(node.GetLocation())
                         if got != fmt(case["composites"][name]):
@@ -166,7 +167,7 @@ def run(ctx, args):
            "INVARIANT RangesRoundTrip\nINVARIANT TokensRoundTrip\nINVARIANT Report\nCHECK_DEADLOCK FALSE\n")
     res = ctx.tlc("MC_C20", cfg, timeout=6000)
     cases = res.records
-    want = (2 ** (mt + 1) - 1) + (2 ** (ms + 1) - 1) + 4 * 5 ** (vg - 1)
+    want = (2 ** (mt + 1) - 1) + (2 ** (ms + 1) - 1) + 6 * 5 ** (vg - 1)
     if len(cases) != want:
         raise common.Machinery(f"expected {want} cases from TLC, got {len(cases)}")
     # the hook must be present: the diagnostic text is only observable through it
